@@ -507,3 +507,12 @@ mod tests {
     }
 }
 
+
+
+/// Base id and held frame ids in order (verification builds only).
+#[cfg(uflow_verif)]
+impl ReorderBuffer {
+    pub fn verif_state(&self) -> (u32, Vec<u32>) {
+        (self.base_id, self.frames[.. self.frame_count as usize].to_vec())
+    }
+}
